@@ -6,7 +6,7 @@
 From Coq Require Import ZArith List String Bool.
 From Model Require Import PyBase PeriodicTable Stereo Rdkit.
 From Gen Require Import Elements RdkitTables StereoTables.
-From Proofs Require Import StereoProofs RdkitProofs RdkitExt.
+From Proofs Require Import StereoProofs RdkitProofs RdkitExt RdkitExt2 RdkitExt3.
 Import ListNotations.
 Open Scope string_scope.
 Open Scope Z_scope.
@@ -411,24 +411,6 @@ Theorem C20_dative_fixed_same_class_partial : forall S s1 s2 n m,
 Proof. exact dative_fixed_same_class_partial. Qed.
 Print Assumptions C20_dative_fixed_same_class_partial.
 
-(* ALL double-bond labels of a molecule.  [bond_wf] relates each chython bond to what RDKit holds for it: nothing written ->
-   no E/Z label; a labelled tetrasubstituted plain double bond -> RDKit may name ANY reference atoms (and reports the label
-   relative to them), run the bond in either direction, and the rebuilt molecule may key its registry entry by either
-   orientation with the substituents of each end in either order; a labelled double bond with missing substituents
-   (hydrogens) -> RDKit keeps the references it was given and the rebuilt entry is the renamed old one.  Then the fourth loop
-   writes exactly the labelled plain double bonds and from_rdkit_molecule reads each back as a label that, translated to the
-   renamed old reference atoms, is the old label.
-   PARTIAL: missing for the full statement are double bonds with missing substituents under re-referencing / another
-   substituent order of the rebuilt entry (needs translate_env_lawH for every such arrangement). *)
-Theorem C20_bridge_stereo_molecule_double_bonds_partial :
-  forall (isH' : Z -> bool) rho centers ct ct' bonds rbonds,
-  Forall2 (bond_wf rho centers ct ct') bonds rbonds ->
-  exists outs, to_bond_labels centers ct bonds = Ok outs /\
-    exists labels', from_bond_labels isH' ct' rbonds = Ok labels' /\
-                    Forall2 (blabel_image isH' rho centers ct ct') bonds labels'.
-Proof. exact double_bonds_from_to. Qed.
-Print Assumptions C20_bridge_stereo_molecule_double_bonds_partial.
-
 (* one tetrasubstituted double bond, every choice RDKit and the rebuilt molecule have *)
 Theorem C20_bridge_stereo_double_bond_any_registry :
   forall (isH' : Z -> bool) (rho : Z -> Z) n0 n1 n2 n3 y0 y1 y2 y3 sw c0 c1 a b s label' nn nm e_be e_eb,
@@ -476,3 +458,118 @@ Theorem C20_conformers_dict_malformed :
   to_conformers_dict [1; 2; 3] [] [[(1, (1, 2, 3)); (4, (0, 0, 0))]] = Err KeyError.
 Proof. exact conformers_dict_malformed. Qed.
 Print Assumptions C20_conformers_dict_malformed.
+
+(* ---- double bonds with missing substituents (hydrogens): every arrangement ---- *)
+(* the one-end-exchange law of _translate_cis_trans_sign for EVERY pattern of present / missing second substituents: an end is
+   (first heavy substituent, second one or None); a reference atom with flag false is the first substituent, with flag true
+   the second one or -- when it is missing -- any hydrogen atom; the sign changes by (flag on the first end) xor (flag on the
+   last end) *)
+Theorem C20_translate_env_law_any : forall (isH : Z -> bool) ya oya yb oyb fa fb x z t,
+  env_ok isH (ya, oya) (yb, oyb) -> ref_on isH (ya, oya) fa x -> ref_on isH (yb, oyb) fb z ->
+  translate_env isH (ya, yb, oya, oyb) x z t = Ok (xorb t (xorb fa fb)).
+Proof. exact translate_env_law_any. Qed.
+Print Assumptions C20_translate_env_law_any.
+
+(* one labelled plain double bond with ANY substituent pattern: RDKit names any reference atoms it can (a hydrogen ATOM where
+   the substituent is missing), reports the label relative to them, runs the bond either way; the rebuilt molecule keys its
+   entry by either orientation with the substituents of an end in either order *)
+Theorem C20_bridge_stereo_double_bond_any_pattern :
+  forall (isH isH' : Z -> bool) (rho : Z -> Z) n0 n1 o2 o3 ya oya yb oyb (sw c0 c1 a b : bool) x z s label' nn nm e_be e_eb,
+  let E' := if sw then (yb, ya, oyb, oya) else (ya, yb, oya, oyb) in
+  let fr := if sw then rho z else rho x in
+  let lr := if sw then rho x else rho z in
+  env_ok isH' (ya, oya) (yb, oyb) ->
+  end_image rho c0 (n0, o2) (ya, oya) -> end_image rho c1 (n1, o3) (yb, oyb) ->
+  ref_on isH (n0, o2) a x -> ref_on isH (n1, o3) b z ->
+  (a = true -> o2 = None -> isH' (rho x) = true) -> (b = true -> o3 = None -> isH' (rho z) = true) ->
+  sign_of_bs label' = Some (xorb s (xorb a b)) ->
+  ((e_be = Some E' /\ e_eb = None /\ nn = fr /\ nm = lr) \/ (e_be = None /\ e_eb = Some E' /\ nn = lr /\ nm = fr)) ->
+  to_bond_stereo (n0, n1, o2, o3) s = (n0, n1, bs_of_sign s) /\
+  exists s', from_bond_stereo isH' e_be e_eb nn nm label' = Ok (Some s') /\
+             translate_ct isH' (if sw then None else Some E') (if sw then Some E' else None) (rho n0) (rho n1) s' = Ok s.
+Proof. exact bond_roundtrip_any. Qed.
+Print Assumptions C20_bridge_stereo_double_bond_any_pattern.
+
+(* ALL double-bond labels of a molecule, full statement.  [bond_wf_any] relates each chython bond to what RDKit holds for it:
+   nothing written -> no E/Z label; a labelled plain double bond (two, one or no second substituent on either end) -> as in
+   the theorem above, per bond.  Then the fourth loop of to_rdkit_molecule writes exactly the labelled plain double bonds and
+   from_rdkit_molecule reads each back as a label for which the rebuilt molecule, asked for the renamed old reference atoms
+   (_translate_cis_trans_sign(rho cn, rho cm, rho n0, rho n1)), answers the old label; all other bonds get no label. *)
+Theorem C20_bridge_stereo_molecule_double_bonds :
+  forall (isH isH' : Z -> bool) rho centers ct ct' bonds rbonds,
+  Forall2 (bond_wf_any isH isH' rho centers ct ct') bonds rbonds ->
+  exists outs, to_bond_labels centers ct bonds = Ok outs /\
+    exists labels', from_bond_labels isH' ct' rbonds = Ok labels' /\
+                    Forall2 (blabel_image_any isH' rho centers ct ct') bonds labels'.
+Proof. exact double_bonds_from_to_full. Qed.
+Print Assumptions C20_bridge_stereo_molecule_double_bonds.
+
+(* non-vacuity: F/C([H])=C([H])/Cl with hydrogen ATOMS; RDKit names the hydrogen of the first end as reference atom (and so
+   reports the opposite label), runs the bond the other way, the rebuilt molecule keys the entry the other way *)
+Theorem C20_bridge_stereo_molecule_double_bonds_full_example :
+  let isH := fun x => (x =? 5) || (x =? 6) in
+  let centers := [(2, (2, 3)); (3, (2, 3))] in
+  let ct := [(2, 3, (1, 4, None, None))] in
+  let ct' := [(3, 2, (4, 1, None, None))] in
+  let bonds := [(1, 2, None); (2, 3, Some true); (3, 4, None); (2, 5, None); (3, 6, None)] in
+  let rbonds := [(0, 1, "STEREONONE", 0, 0); (2, 1, "STEREOE", 3, 4); (2, 3, "STEREONONE", 0, 0); (1, 4, "STEREONONE", 0, 0);
+                 (2, 5, "STEREONONE", 0, 0)] in
+  Forall2 (bond_wf_any isH isH (fun x => x) centers ct ct') bonds rbonds /\
+  to_bond_labels centers ct bonds = Ok [None; Some (1, 4, "STEREOZ"); None; None; None] /\
+  from_bond_labels isH ct' rbonds = Ok [(1, 2, None); (3, 2, Some true); (3, 4, None); (2, 5, None); (3, 6, None)] /\
+  translate_ct isH (pget ct' (2, 3)) (pget ct' (3, 2)) 1 4 true = Ok true.
+Proof. exact double_bonds_full_example. Qed.
+Print Assumptions C20_bridge_stereo_molecule_double_bonds_full_example.
+
+(* ---- which labels from_rdkit_molecule can lose (the part after the label loops; fix_stereo is a parameter) ---- *)
+(* under the only assumption that fix_stereo erases labels and does nothing else, every atom label of the result is
+   [atom_label]: the translation of the CW/CCW tag of that atom, or nothing because (1) the atom has no CW/CCW tag, (2) it is
+   not in stereogenic_tetrahedrons, (3) the translation raised KeyError (RDKit lists four neighbours, the registry holds three
+   and none of the four is a hydrogen) -- or (4) fix_stereo erased it; and fix_stereo does not even run when the RDKit molecule
+   carries no tag and no E/Z label *)
+Theorem C20_from_rdkit_final_atom_labels : forall fixs, only_erases fixs ->
+  forall (isH : Z -> bool) th ct nb tags rbonds fa fb,
+  from_stereo_final fixs isH th ct nb tags rbonds = Ok (fa, fb) ->
+  exists keepA : Z -> bool,
+    fa = map (fun it => (fst it + 1, if keepA (fst it + 1) then atom_label isH th nb (fst it) (snd it) else None)) (enum_from 0 tags) /\
+    (has_tag tags || has_bond_label rbonds = false -> forall n, keepA n = true).
+Proof. exact final_atom_labels. Qed.
+Print Assumptions C20_from_rdkit_final_atom_labels.
+
+(* nothing is invented, nothing is changed *)
+Theorem C20_from_rdkit_final_atom_label_sound : forall fixs, only_erases fixs ->
+  forall (isH : Z -> bool) th ct nb tags rbonds fa fb n s,
+  from_stereo_final fixs isH th ct nb tags rbonds = Ok (fa, fb) -> In (n, Some s) fa ->
+  exists k tag t o, n = k + 1 /\ In (k, tag) (enum_from 0 tags) /\ sign_of_tag tag = Some t /\ zget th n = Some o /\
+                    translate_th isH o (map (fun j => j + 1) (nb k)) t = Ok s.
+Proof. exact final_atom_label_sound. Qed.
+Print Assumptions C20_from_rdkit_final_atom_label_sound.
+
+Theorem C20_from_rdkit_final_bond_labels : forall fixs, only_erases fixs ->
+  forall (isH : Z -> bool) th ct nb tags rbonds fa fb,
+  from_stereo_final fixs isH th ct nb tags rbonds = Ok (fa, fb) ->
+  exists keepB : Z * Z -> bool,
+    fb = map (fun rb => let k := (fst (fst (fst (fst rb))) + 1, snd (fst (fst (fst rb))) + 1) in
+                        (k, if keepB k then bond_label isH ct rb else None)) rbonds /\
+    (has_tag tags || has_bond_label rbonds = false -> forall k, keepB k = true).
+Proof. exact final_bond_labels. Qed.
+Print Assumptions C20_from_rdkit_final_bond_labels.
+
+(* every cause of a lost label occurs (and the hypothesis on fix_stereo is satisfiable) *)
+Theorem C20_lost_label_causes :
+  let nb := fun _ : Z => [0; 2; 3] in
+  let th := [(2, [1; 3; 4])] in
+  let erase2 : stereo_labels -> stereo_labels :=
+    fun l => (map (fun p => (fst p, if fst p =? 2 then None else snd p)) (fst l), snd l) in
+  let same : stereo_labels -> stereo_labels := fun l => l in
+  let tags := ["CHI_UNSPECIFIED"; "CHI_TETRAHEDRAL_CCW"; "CHI_UNSPECIFIED"; "CHI_UNSPECIFIED"] in
+  from_stereo_final same (fun _ => false) th [] nb tags [] = Ok ([(1, None); (2, Some true); (3, None); (4, None)], []) /\
+  from_stereo_final same (fun _ => false) th [] nb ["CHI_UNSPECIFIED"; "CHI_OTHER"; "CHI_UNSPECIFIED"; "CHI_UNSPECIFIED"] [] =
+    Ok ([(1, None); (2, None); (3, None); (4, None)], []) /\
+  from_stereo_final same (fun _ => false) [] [] nb tags [] = Ok ([(1, None); (2, None); (3, None); (4, None)], []) /\
+  from_stereo_final same (fun _ => false) th [] (fun _ => [0; 2; 3; 4]) (tags ++ ["CHI_UNSPECIFIED"]) [] =
+    Ok ([(1, None); (2, None); (3, None); (4, None); (5, None)], []) /\
+  from_stereo_final erase2 (fun _ => false) th [] nb tags [] = Ok ([(1, None); (2, None); (3, None); (4, None)], []) /\
+  only_erases same /\ only_erases erase2.
+Proof. exact lost_label_causes. Qed.
+Print Assumptions C20_lost_label_causes.
